@@ -66,6 +66,23 @@ func TestC18(t *testing.T) {
 			}
 		}
 	}
+	// two plugins behind custom runners at once, killed in either order; the application uses one UnixSocketConfig value
+	// for both (shared) or one each
+	for _, proto := range []string{"netrpc", "grpc"} {
+		for _, shared := range []bool{false, true} {
+			for _, order := range [][]string{{"kill:0", "get:@1", "kill:1"}, {"kill:1", "get:@0", "kill:0"}} {
+				ops := []string{"new", "start", "client", "dispense", "set:5", "new", "start", "client", "dispense", "set:5@1", "callback:@0", "callback:@1"}
+				ops = append(ops, order...)
+				cells = append(cells, Cell{
+					Name:     fmt.Sprintf("%s mux=false tls=none launch=runner two plugins at once (shared UnixSocketConfig=%v) history=[%s]", proto, shared, strings.Join(order, ",")),
+					Plugin:   PluginConf{CookieKey: cookieKey, CookieValue: cookieVal, Legacy: 1, LegacyProto: proto, GRPCServer: true, TLS: "none", ExitMarker: "auto"},
+					Host:     HostConf{Allowed: []string{"netrpc", "grpc"}, TLS: "none", Launch: "runner", Legacy: 1, SkipHostEnv: true, SharedSocketCfg: shared},
+					Ops:      ops,
+					LeakWait: 7000,
+				})
+			}
+		}
+	}
 	// the other order: the plugin has already exited gracefully (a second, reattached client shut it down) when
 	// the first client is killed; the first client's resources must be released all the same
 	for _, proto := range []string{"netrpc", "grpc"} {
